@@ -43,3 +43,32 @@ Proof.
   generalize (map (fun _ : vec => -1) pts, 0). induction H as [|P P' Ps Ps' HP _ IH]; intro st; [reflexivity|].
   cbn [fold_left]. rewrite (window_step_same_visible ncaps pts st P P' HP). apply IH.
 Qed.
+
+(* the balkans polygons are well formed (hold as many caps as NCAPS says) when every run lies inside the
+   cap table, so the window-lookup theorems apply to them *)
+Lemma balkans_slice_wf bcaps blist :
+  Forall (fun r : nat * nat => (fst r + snd r <= length bcaps)%nat) blist ->
+  Forall wf_poly (balkans_slice bcaps blist).
+Proof.
+  intro H. unfold balkans_slice. apply Forall_map. eapply Forall_impl; [|exact H].
+  intros [icap n] Hr. cbn [fst snd] in Hr. unfold wf_poly. cbn [pn pcaps].
+  rewrite slice_length by exact Hr. apply le_n.
+Qed.
+
+(* an empty window contains no point; a whole-sky polygon (no caps) takes every point that reaches it *)
+Lemma in_window_nil ncaps pts : in_window [] ncaps pts = map (fun _ => (false, -1)) pts.
+Proof.
+  unfold in_window, in_window_idx. cbn [fold_left fst]. rewrite map_map. reflexivity.
+Qed.
+
+Lemma whole_sky_takes_rest Ps P Qs ncaps p : Forall wf_poly Ps -> pn P = 0%nat ->
+  first_match Ps ncaps p = None ->
+  first_match (Ps ++ P :: Qs) ncaps p = Some (length Ps).
+Proof.
+  intros Hwf HP Hnone. apply first_match_some. split.
+  - exists P. split.
+    + rewrite nth_error_app2 by apply le_n. rewrite Nat.sub_diag. reflexivity.
+    + rewrite <- in_polygon_refines by (unfold wf_poly in *; lia). apply no_caps_contains_all. exact HP.
+  - intros j Pj Hj Hn. rewrite nth_error_app1 in Hn by exact Hj.
+    rewrite first_match_none in Hnone. apply (Hnone j Pj Hn).
+Qed.
